@@ -22,8 +22,16 @@ bool structural(const Paths64& sol, const Paths64& allInputs, std::string& why, 
     for (size_t k = 0; k < p.size(); ++k) {
       if (p[k] == p[(k + 1) % p.size()]) { why = "consecutive equal vertices " + O::ptStr(p[k]); return false; }
       if (useBox && (p[k].x < l || p[k].x > r || p[k].y < t || p[k].y > b)) {
-        // KF-C03-e: on degenerate input a vertex was seen exactly one unit outside the box
-        if (degenerateOk && p[k].x >= l - 1 && p[k].x <= r + 1 && p[k].y >= t - 1 && p[k].y <= b + 1) { *knownE = true; continue; }
+        // KF-C03-e: on heavily degenerate input a vertex was seen outside the box ON the extension of an input edge
+        // (an overshooting horizontal run); only that shape is classified
+        if (degenerateOk) {
+          bool onExtension = false;
+          for (auto& ip : allInputs) for (size_t e = 0; e + 1 <= ip.size() && !onExtension; ++e) {
+            const Point64 &a = ip[e], &b2 = ip[(e + 1) % ip.size()];
+            if (!(a == b2) && O::cross(a, b2, p[k]) == 0) onExtension = true;
+          }
+          if (onExtension) { *knownE = true; continue; }
+        }
         why = "solution vertex " + O::ptStr(p[k]) + " outside the bounding box of the inputs";
         return false;
       }
